@@ -8,6 +8,8 @@ from ..ref import adsb as radsb
 from ..ref import bits
 
 LEVEL = "exploration"
+TECHNIQUE = 'runtime monitoring: DO-260B ME builder as oracle on real velocity decoders, exhaustive field sweeps'
+LEVEL_TEXT = 'Exhaustive over subtype x sign x each 10-bit field, vertical rate, difference and the 128x2x128 surface cells; the cross product of the two 10-bit fields is sampled.'
 EXHAUSTIVE = True
 LEVEL_RULE = (
     "adsb.velocity(source=True/False) / airborne_velocity / surface_velocity / speed_heading / altitude_diff called on "
